@@ -295,18 +295,36 @@ Theorem crack_array_entrywise : forall (T : Type) (N : Num T) K (inc out : nd T)
                           else c0 N.
 Proof. intros T N. exact (crack_nd_entry N). Qed.
 
-(* ValueError (to_compute) before ValueError (shapes) before NotImplementedError (> 2 dimensions) *)
+(* ValueError (to_compute) before ValueError (shapes) before NotImplementedError (> 2 dimensions)
+   before — with the optimised driver only — the IndexError of inc_theta[0] (scat.py:420) when the
+   broadcast shape is (0, b): the 2-d arrays the drivers work on have no row.  (A scalar is computed as
+   (1, 1) and a vector of any length, also 0, as (1, n): no error there.)  EEmptyModes is the model's
+   IndexError. *)
 Theorem crack_array_outcome : forall (T : Type) (N : Num T) K (inc out : nd T) safe tc,
   match crack_2d_scat_nd N K inc out safe tc with
   | inl EToCompute => valid_to_compute tc = false
   | inl EBroadcast => valid_to_compute tc = true /\ bshape (nd_shape inc) (nd_shape out) = None
   | inl ENotImplemented => valid_to_compute tc = true /\
       exists fs, bshape (nd_shape inc) (nd_shape out) = Some fs /\ (2 < List.length fs)%nat
+  | inl EEmptyModes => valid_to_compute tc = true /\ safe = true /\
+      exists b, bshape (nd_shape inc) (nd_shape out) = Some [0%nat; b]
   | inl _ => False
   | inr _ => valid_to_compute tc = true /\
-      exists fs, bshape (nd_shape inc) (nd_shape out) = Some fs /\ (List.length fs <= 2)%nat
+      exists fs, bshape (nd_shape inc) (nd_shape out) = Some fs /\ (List.length fs <= 2)%nat /\
+                 (safe = true -> forall b, fs <> [0%nat; b])
   end.
 Proof. intros T N. exact (crack_nd_outcome N). Qed.
+
+(* the converse, as an equation: valid keys and a broadcast shape (0, b) — the optimised driver raises
+   IndexError, the general driver answers (the four empty arrays, by crack_array_entrywise).
+   On the library: crack_2d_scat(np.zeros((0, 2)), 1., 1e6, 1e-3, 6300., 3120., 2700.,
+   assume_safe_for_opt=True) raises IndexError; with assume_safe_for_opt=False it returns arrays of
+   shape (0, 2). *)
+Theorem crack_array_empty_first_axis : forall (T : Type) (N : Num T) K (inc out : nd T) tc b,
+  valid_to_compute tc = true -> bshape (nd_shape inc) (nd_shape out) = Some [0%nat; b] ->
+  crack_2d_scat_nd N K inc out true tc = inl EEmptyModes /\
+  exists D, crack_2d_scat_nd N K inc out false tc = inr D.
+Proof. intros T N. exact (crack_nd_empty_rows N). Qed.
 
 (* optimised = general for scalars and vectors (always) and for matrices with column-constant
    incident angles (the documented precondition), key by key, entry by entry *)
@@ -418,6 +436,19 @@ Theorem crack_matrix_entries : forall (T : Type) (N : Num T) K flag f n tc D k,
                        else c0 N.
 Proof. intros T N. exact (crack_single_entry N). Qed.
 
+(* which matrix requests of the crack answer: valid keys, and — when the object is called with the flag
+   True, as the matrix entry points of CrackCentreScat do — at least one angle; numangles = 0 raises
+   IndexError (the grid has the shape (0, 0)):
+   CrackCentreScat(1e-3, 6300., 3120., 2700.).as_single_freq_matrices(1e6, 0) *)
+Theorem crack_matrix_outcome : forall (T : Type) (N : Num T) (K : T -> crack_kernels) flag f n tc,
+  match as_single_freq_matrices N (crack_obj_call N K flag) f n tc with
+  | inl EToCompute => valid_to_compute tc = false
+  | inl EEmptyModes => valid_to_compute tc = true /\ flag = true /\ n = 0%nat
+  | inl _ => False
+  | inr _ => valid_to_compute tc = true /\ (flag = true -> n <> 0%nat)
+  end.
+Proof. intros T N K. exact (crack_single_outcome N K). Qed.
+
 Theorem crack_matrix_symmetric : forall (P : R -> crack_params) (ax az : R -> Z -> R * R) fq n tc D flag,
   exact_solve NumR (cp_nn (P fq)) (galerkin_matrix (Z.of_nat (cp_nn (P fq))) (ax fq)) (cp_solve_x (P fq)) ->
   exact_solve NumR (cp_nn (P fq)) (galerkin_matrix (Z.of_nat (cp_nn (P fq))) (az fq)) (cp_solve_z (P fq)) ->
@@ -484,41 +515,82 @@ Proof. intros T N. exact (crack_multi_entry N). Qed.
 
 (* ---- the flag _in_matrix_calculation of CrackCentreScat over histories of calls ---- *)
 
+(* HISTORY OF THIS PART.  The model was first written against the library whose context manager
+   _scat_matrix_calculation had NO try/finally.  Modelling it showed a genuine defect: a matrix request
+   that raised (e.g. an invalid key: obj.as_single_freq_matrices(1e6, 4, ["XX"]) -> ValueError) left
+   _in_matrix_calculation True, and every later plain call obj(inc, out, f) on 2-d angle arrays was
+   evaluated by the optimised driver, i.e. with the incident angles of the FIRST ROW:
+   obj(inc, out, f)[k][j, i] = S_k(inc[0, i], out[j, i]) instead of S_k(inc[j, i], out[j, i]).
+   Concrete witness that used to differ (replayed on the library at the time, .work/prover_C09_TIE.md):
+     obj = CrackCentreScat(...); obj.as_single_freq_matrices(1e6, 4, ["XX"])   # raises ValueError
+     obj(inc, out, 1e6)["LL"][1, 0]  with  inc = [[0.], [1.]], out = [[0.], [0.]]
+   answered S_LL(0, 0) (first-row incident angle) while a fresh object answers S_LL(1, 0).
+   The theorems crack_flag_stuck_after_error and crack_history_independence_refuted recorded this.
+   The defect was REPAIRED in the library by /repo commit 3989d85 (the flag is reset in a `finally`
+   clause); the model describes the repaired code, and the two theorems are replaced by the positive
+   statements crack_flag_reset_after_failed_request, crack_history_answers_as_fresh and
+   crack_failed_request_witness below (the same witness, now agreeing with the fresh object). *)
+
+(* a plain call leaves the flag; a matrix request leaves it False, whether it returned or raised *)
 Theorem crack_flag_after_step : forall (T : Type) (N : Num T) K flag op,
   snd (crack_step N K flag op)
   = match op with
     | OpCall _ _ _ _ => flag
-    | _ => negb (res_ok (fst (crack_step N K flag op)))
+    | _ => false
     end.
 Proof. intros T N. exact (crack_step_flag N). Qed.
 
-(* after any history, from a fresh object, in which no matrix request raised, the flag is False and the
-   next operation answers what it answers on a fresh object *)
+(* after ANY history from a fresh object — plain calls that raise, matrix requests that raise, anything —
+   the flag is False and the next operation answers what it answers on a fresh object *)
 Theorem crack_history_independent : forall (T : Type) (N : Num T) K ops op,
-  clean_history N K false ops ->
   snd (crack_run N K false ops) = false /\
   crack_step N K (snd (crack_run N K false ops)) op = crack_step N K crack_init_flag op.
 Proof.
-  intros T N K ops op H. split; [apply crack_flag_restored; exact H | apply ScatGlueProofs.crack_history_independent; exact H].
+  intros T N K ops op. split; [apply crack_flag_restored | apply ScatGlueProofs.crack_history_independent].
 Qed.
 
-(* FINDING.  The full statement "a plain call answers the same after ANY history" is FALSE of the
-   code: _scat_matrix_calculation has no try/finally, a matrix request that raises leaves the flag
-   True, and the next plain call is evaluated by the optimised driver (first-row incident angles).
-   Replayed on the library: see .work/prover_C09_TIE.md. *)
-Theorem crack_flag_stuck_after_error : forall (T : Type) (N : Num T) K f n inc out g tc,
-  crack_run N K false [OpSingle f n ["XX"%string]; OpCall inc out g tc]
-  = ([RDict (inl EToCompute); RDict (crack_2d_scat_nd N (K g) inc out true tc)], true) /\
-  crack_step N K false (OpMulti [f] n ["XX"%string]) = (RMulti (inl EToCompute), true).
-Proof. intros T N K f n inc out g tc. split; [apply crack_flag_stuck | apply crack_flag_stuck_multi]. Qed.
+(* ... and every operation OF the history answered as on a fresh object: the results of a run are the
+   results of its operations taken one by one on fresh objects; every plain call of every history is
+   evaluated by the general driver (assume_safe_for_opt=False) *)
+Theorem crack_history_answers_as_fresh : forall (T : Type) (N : Num T) K ops,
+  crack_run N K false ops = (map (fun op => fst (crack_step N K crack_init_flag op)) ops, false) /\
+  forall inc out f tc, fst (crack_step N K crack_init_flag (OpCall inc out f tc))
+                       = RDict (crack_2d_scat_nd N (K f) inc out false tc).
+Proof. intros T N K ops. split; [apply crack_run_pointwise | apply crack_call_fresh]. Qed.
 
-Theorem crack_history_independence_refuted :
+(* a failed request (single or multi-frequency; here an invalid key) resets the flag, and the plain call
+   that follows is evaluated by the general driver; whatever the flag found (also one forced to True by
+   hand), one matrix request — failed or not — resets it *)
+Theorem crack_flag_reset_after_failed_request : forall (T : Type) (N : Num T) K f n inc out g tc,
+  crack_run N K false [OpSingle f n ["XX"%string]; OpCall inc out g tc]
+  = ([RDict (inl EToCompute); RDict (crack_2d_scat_nd N (K g) inc out false tc)], false) /\
+  crack_step N K false (OpMulti [f] n ["XX"%string]) = (RMulti (inl EToCompute), false) /\
+  (forall flag op ops,
+     match op with OpCall _ _ _ _ => True | _ => snd (crack_run N K flag (op :: ops)) = false end).
+Proof.
+  intros T N K f n inc out g tc. split; [apply crack_flag_reset|]. split; [apply crack_flag_reset_multi|].
+  apply crack_flag_reset_any.
+Qed.
+
+(* the witness of the repaired defect, and the reason why the reset matters (the flag is observable):
+   after the failed request the call answers D' = the answer of a fresh object; an object whose flag is
+   True (what the code before /repo 3989d85 had at this point) answers D, different at [1, 0] *)
+Theorem crack_failed_request_witness :
   exists (K : R -> crack_kernels (T:=R)) (inc out : nd R) (D D' : dict (nd (R * R))) (A A' : nd (R * R)),
-    snd (crack_run NumR K false [OpSingle 1 4%nat ["XX"%string]]) = true /\
-    crack_obj_call NumR K true inc out 1 scat_keys = inr D /\
+    crack_run NumR K false [OpSingle 1 4%nat ["XX"%string]; OpCall inc out 1 scat_keys]
+      = ([RDict (inl EToCompute); RDict (inr D')], false) /\
     crack_obj_call NumR K crack_init_flag inc out 1 scat_keys = inr D' /\
+    crack_obj_call NumR K true inc out 1 scat_keys = inr D /\
     lookup "LL" D = Some A /\ lookup "LL" D' = Some A' /\ nd_at A [1; 0]%nat <> nd_at A' [1; 0]%nat.
-Proof. exact crack_stuck_flag_changes_answer. Qed.
+Proof. exact ScatGlueProofs.crack_failed_request_witness. Qed.
+
+(* numangles = 0 on the crack object: the request raises IndexError (valid keys; with an invalid key the
+   ValueError comes first, crack_matrix_outcome), for the multi-frequency request at the first
+   frequency; the flag is reset all the same *)
+Theorem crack_zero_angles_request : forall (T : Type) (N : Num T) K f fs tc, valid_to_compute tc = true ->
+  crack_step N K false (OpSingle f 0 tc) = (RDict (inl EEmptyModes), false) /\
+  crack_step N K false (OpMulti (f :: fs) 0 tc) = (RMulti (inl EEmptyModes), false).
+Proof. intros T N K f fs tc Hv. split; [apply crack_single_zero | apply crack_multi_zero]; exact Hv. Qed.
 
 (* ---- mirror symmetry of the crack (exact solver, mesh symmetric about the centre) ---- *)
 Theorem crack_mirror_symmetry : forall (p : crack_params) (ax az : Z -> R * R),
@@ -586,12 +658,15 @@ Proof.
     + exfalso. apply (proj2 (Hk "LL"%string)); [split; reflexivity | exact El].
 Qed.
 
-(* a history without failed matrix request; and the matrix request of the crack succeeds *)
-Example clean_history_example : forall K : R -> crack_kernels (T:=R),
-  clean_history NumR K false
+(* a history with successful and failed operations of every kind: which raise, and the final flag *)
+Example mixed_history_example : forall K : R -> crack_kernels (T:=R),
+  let run := crack_run NumR K false
     [OpCall (nd_scalar 0) (nd_scalar 1) 1 scat_keys; OpSingle 1 3%nat ["LL"; "TT"]%string;
-     OpMulti [1; 2] 2%nat scat_keys; OpCall (nd_scalar 0) (nd_scalar 1) 1 ["XX"]%string].
-Proof. intros K. cbn. repeat split. Qed.
+     OpSingle 1 3%nat ["XX"]%string; OpMulti [1; 2] 2%nat scat_keys; OpMulti [1; 2] 0%nat scat_keys;
+     OpCall (nd_scalar 0) (nd_scalar 1) 1 ["XX"]%string; OpSingle 1 0%nat scat_keys;
+     OpCall (nd_scalar 0) (nd_scalar 1) 1 scat_keys] in
+  map (res_ok (T:=R)) (fst run) = [true; true; false; true; false; false; false; true] /\ snd run = false.
+Proof. intros K. split; reflexivity. Qed.
 
 (* the hypotheses of crack_mirror_symmetry are satisfiable: two nodes, the mesh of crack_2d_scat, the
    2x2 Galerkin matrix [[2,1],[1,2]] and its exact solver *)
